@@ -937,12 +937,17 @@ class PteraTransformer(NodeTransformer):
         return ast.copy_location(ast.Return(value=new_value), node)
 
     def visit_Yield(self, node):
+        # These two interactions are always generated, even if nothing
+        # listens to them: they tell the frame that the generator is about
+        # to be suspended / has just been resumed, so that its caller does
+        # not appear to be running inside it in the meantime.
         new_value = self._interact(
             "#yield",
             None,
             self._get("exit_tag"),
             self.visit(node.value or ast.Constant(value=None)),
             True,
+            force=True,
         )
         new_yield = self._interact(
             "#receive",
@@ -950,6 +955,7 @@ class PteraTransformer(NodeTransformer):
             self._get("enter_tag"),
             ast.Yield(value=new_value),
             True,
+            force=True,
         )
         return ast.copy_location(new_yield, node)
 
